@@ -20,12 +20,20 @@
    data carries transactions and has not been accepted.  num_waiting_blocks counts them among the committed
    heights.  The DA layer answers truthfully (lost acknowledgements are C06's subject).
 
-   NOT in Coq: that blobs decode to the committed headers / data (C06, C12); timing of the loops' tickers
-   (an iteration is an atomic step here; the real loops run concurrently with production — the watermarks are
-   atomics and each is written by one loop only, plus the production step for the data watermark via
-   numWaitingData; that interleaving is not modelled). *)
+   CONCURRENCY (second half of this file, Model/ThrottleConc.v): the aggregation goroutine runs concurrently
+   with the two submission loops, and the limit check of one production attempt reads the shared watermarks at
+   distinct instants.  [xhist] = histories that additionally contain  XProduceI q ne : a production attempt with
+   whole submission iterations running INSIDE it, placed by the schedule q at any of: before the header
+   watermark is read, between that read and numPendingData's read, between numPendingData's read and
+   getPending's read, while the pending range is fetched, before each item numWaitingData's loop examines,
+   and after the decision while the block is built.  The C08_*_interleaved / _concurrent / _stale_ theorems
+   quantify over all such histories and all schedules.
+
+   NOT in Coq: that blobs decode to the committed headers / data (C06, C12); timing of the loops' tickers;
+   a submission iteration is still an atomic step (a production attempt running INSIDE a submission iteration,
+   e.g. between two DA calls of submitToDA, is not modelled); restarts inside an attempt. *)
 From Coq Require Import NArith List Bool.
-From Verif Require Import Model.Throttle Proofs.ThrottleProofs.
+From Verif Require Import Model.Throttle Proofs.ThrottleProofs Model.ThrottleConc Proofs.ThrottleConcProofs.
 Import ListNotations.
 Open Scope N_scope.
 
@@ -140,3 +148,134 @@ Proof. vm_compute. repeat split. Qed.
 (* what the uint64 arithmetic would do if a watermark ever exceeded the height (excluded by C08_no_wrap_full) *)
 Example sub64_wraps : sub64 3 5 = 18446744073709551614.
 Proof. vm_compute. reflexivity. Qed.
+
+(* ================================================================================================================ *)
+(* Production attempts interleaved with the submission loops (Model/ThrottleConc.v)                                 *)
+(* ================================================================================================================ *)
+
+(* The interleaved model extends the atomic one: with nothing scheduled inside, an attempt is Throttle.produce,
+   and a history of atomic items is run as before — so every theorem below specialises to the ones above. *)
+Theorem C08_interleaved_sequential_full : forall (c : cfg) (s : state) (ne : bool),
+  attempt_i c s no_sched ne = (produce c s ne, (refused c s, [])).
+Proof. exact c08i_sequential. Qed.
+Print Assumptions C08_interleaved_sequential_full.
+
+Theorem C08_interleaved_atomic_histories_full : forall (c : cfg) (hist : list item),
+  xfinal c (map XI hist) = final c hist.
+Proof. exact c08i_atomic_histories. Qed.
+Print Assumptions C08_interleaved_atomic_histories_full.
+
+(* Throttling is justified, under any schedule: an attempt that does not produce a block leaves the height
+   unchanged, L != 0, and at least L committed blocks were genuinely waiting for the DA layer when the attempt
+   began (the count it acted on may be out of date by the time it returns, never invented). *)
+Theorem C08_refusal_justified_interleaved_full : forall (c : cfg) (xhist : list xitem) (q : sched) (ne : bool),
+  1 <= c_init c ->
+  let s := xfinal c xhist in
+  let s' := xfinal c (xhist ++ [XProduceI q ne]) in
+  t_height s' <> t_height s + 1 ->
+  t_height s' = t_height s /\ c_limit c <> 0 /\ c_limit c <= num_waiting_blocks c s.
+Proof. exact c08i_refusal_justified. Qed.
+Print Assumptions C08_refusal_justified_interleaved_full.
+
+(* Resumption as soon as the DA layer has accepted them, under any schedule: if fewer than L committed blocks
+   wait when an attempt begins — after ANY interleaved history, in particular right after an attempt that was
+   refused on an out-of-date count — the attempt produces a block.  The decision is recomputed from the stored
+   watermarks at every attempt; nothing of an earlier refusal is remembered. *)
+Theorem C08_resumes_when_accepted_interleaved_full : forall (c : cfg) (xhist : list xitem) (q : sched) (ne : bool),
+  1 <= c_init c ->
+  let s := xfinal c xhist in
+  num_waiting_blocks c s < c_limit c ->
+  t_height (xfinal c (xhist ++ [XProduceI q ne])) = t_height s + 1.
+Proof. exact c08i_resumes_when_accepted. Qed.
+Print Assumptions C08_resumes_when_accepted_interleaved_full.
+
+Theorem C08_resumes_interleaved_full : forall (c : cfg) (xhist : list xitem) (hfirst : bool) (sh sd : list outcome)
+  (q : sched) (ne : bool),
+  1 <= c_init c -> eventually_accepts sh -> eventually_accepts sd ->
+  let s := xfinal c (xhist ++ map XI (sub_round hfirst sh sd)) in
+  num_waiting_blocks c s = 0 /\
+  t_height (xfinal c (xhist ++ map XI (sub_round hfirst sh sd) ++ [XProduceI q ne])) = t_height s + 1.
+Proof. exact c08i_resumes. Qed.
+Print Assumptions C08_resumes_interleaved_full.
+
+(* A stale decision delays production by at most one attempt.  Two consecutive attempts under any schedules q1,
+   q2, where a DA layer that accepts takes one header and one data iteration somewhere INSIDE the first: either
+   the first produces a block, or nothing is left waiting after it and the second produces one. *)
+Theorem C08_stale_refusal_one_attempt_full : forall (c : cfg) (xhist : list xitem) (q1 q2 : sched) (ne1 ne2 : bool),
+  1 <= c_init c -> c_limit c <> 0 -> sched_accepts q1 ->
+  let s0 := xfinal c xhist in
+  let s1 := xfinal c (xhist ++ [XProduceI q1 ne1]) in
+  let s2 := xfinal c (xhist ++ [XProduceI q1 ne1; XProduceI q2 ne2]) in
+  t_height s1 = t_height s0 + 1 \/ (num_waiting_blocks c s1 = 0 /\ t_height s2 = t_height s1 + 1).
+Proof. exact c08i_stale_refusal_one_attempt. Qed.
+Print Assumptions C08_stale_refusal_one_attempt_full.
+
+(* No deadlock with interleaved attempts: after any interleaved history, every round (both submission iterations
+   against an accepting DA layer, then one attempt under ANY schedule) produces a block. *)
+Theorem C08_no_deadlock_interleaved_full : forall (c : cfg) (rs : list xround) (xhist : list xitem), 1 <= c_init c ->
+  Forall xround_ok rs ->
+  t_height (xfinal c (xhist ++ flat_map xround_items rs)) = t_height (xfinal c xhist) + N.of_nat (length rs).
+Proof. exact c08i_no_deadlock. Qed.
+Print Assumptions C08_no_deadlock_interleaved_full.
+
+(* No deadlock when the submission loops run ONLY inside the attempts: if every attempt has an accepting header
+   and an accepting data iteration somewhere inside it, at least every second attempt produces a block. *)
+Theorem C08_no_deadlock_concurrent_full : forall (c : cfg) (xhist : list xitem) (atts : list (sched * bool)),
+  1 <= c_init c -> c_limit c <> 0 -> Forall (fun a => sched_accepts (fst a)) atts ->
+  t_height (xfinal c xhist) + N.of_nat (Nat.div2 (length atts)) <=
+  t_height (xfinal c (xhist ++ map (fun a => XProduceI (fst a) (snd a)) atts)).
+Proof. exact c08i_no_deadlock_concurrent. Qed.
+Print Assumptions C08_no_deadlock_concurrent_full.
+
+Theorem C08_limit_enforced_interleaved_full : forall (c : cfg) (xhist : list xitem) (h : N), 1 <= c_init c ->
+  c_limit c <> 0 ->
+  let s := xfinal c xhist in
+  c_init c <= h <= t_height s -> ~ In h (t_dah s) -> t_height s < h + c_limit c.
+Proof. exact c08i_limit_enforced. Qed.
+Print Assumptions C08_limit_enforced_interleaved_full.
+
+Theorem C08_no_wrap_interleaved_full : forall (c : cfg) (xhist : list xitem), 1 <= c_init c ->
+  let s := xfinal c xhist in
+  c_init c - 1 <= t_wh s <= t_height s /\ c_init c - 1 <= t_wd s <= t_height s /\
+  sub64 (t_height s) (t_wh s) = t_height s - t_wh s /\ sub64 (t_height s) (t_wd s) = t_height s - t_wd s.
+Proof. exact c08i_no_wrap. Qed.
+Print Assumptions C08_no_wrap_interleaved_full.
+
+(* ---- non-vacuity ------------------------------------------------------------------------------------------- *)
+(* the stale refusal exists: L = 3; block 1 empty, blocks 2..4 with transactions; all headers accepted, no data
+   yet.  The next attempt counts 3 waiting data items; while it fetches them the data loop gets all three
+   accepted.  The attempt is refused although nothing waits any more when it returns — and the following
+   attempt (nothing scheduled inside) produces block 5. *)
+Definition stale_hist : list xitem :=
+  map XI [IProduce false; IProduce true; IProduce true; IHeaders acc1; IProduce true; IHeaders acc1].
+Definition stale_q : sched := mk_sched [] [] [] [SData acc1] [] [].
+Example stale_refusal_happens :
+  let c := mk_cfg 1 3 in
+  let s0 := xfinal c stale_hist in
+  let s1 := xfinal c (stale_hist ++ [XProduceI stale_q true]) in
+  let s2 := xfinal c (stale_hist ++ [XProduceI stale_q true; XProduceI no_sched true]) in
+  num_waiting_blocks c s0 = 3 /\ attempt_refused c s0 stale_q true = true /\ t_height s1 = 4 /\
+  num_waiting_blocks c s1 = 0 /\ t_wd s1 = 4 /\ t_height s2 = 5.
+Proof. vm_compute. repeat split. Qed.
+
+(* the same iteration one read earlier (before numPendingData's load) is seen by the attempt: not refused *)
+Example early_enough_is_seen :
+  let c := mk_cfg 1 3 in
+  t_height (xfinal c (stale_hist ++ [XProduceI (mk_sched [] [SData acc1] [] [] [] []) true])) = 5.
+Proof. vm_compute. reflexivity. Qed.
+
+(* the watermark step of numWaitingData meets the data loop: L = 3; blocks 1,2 empty, 3 with transactions, all
+   three headers accepted, then block 4 empty.  numWaitingData is called (4 data items pending); it steps over
+   block 1; before it examines block 2 the data loop gets block 3 accepted and moves the watermark to 3: the
+   later step "to 2" must not move it back. *)
+Example mark_meets_data_loop :
+  let c := mk_cfg 1 3 in
+  let h := map XI [IProduce false; IProduce false; IProduce true; IHeaders acc1; IProduce false] in
+  let s := xfinal c (h ++ [XProduceI (mk_sched [] [] [] [] [[]; [SData acc1]] []) false]) in
+  t_wd s = 3 /\ t_pd s = 3 /\ t_height s = 5 /\ t_dad s = [3].
+Proof. vm_compute. repeat split. Qed.
+
+Example stale_q_accepts : sched_accepts (mk_sched [SHeaders acc1] [] [] [SData out3] [] []).
+Proof.
+  split; [exists acc1 | exists out3]; (split; [cbn; tauto|]); [exact accepts_at_once | exact accepts_after_outage].
+Qed.
